@@ -19,7 +19,17 @@ pub enum Scenario {
     /// n-ary sum (false) / product (true) with `arity` inputs; bit i of `mask` = input i present
     Nary { product: bool, arity: u8, mask: u8, time_perm: u8 },
     /// terminal state read: (own present, partner present, linked)
-    TerminalRead { own: bool, partner: bool, linked: bool },
+    /// `order`: 0 partner newer, 1 own newer, 2 equal times, 3 own i64::MAX / partner i64::MIN, 4 the reverse;
+    /// `from_partner`: read at the partner's end instead
+    TerminalRead {
+        own: bool,
+        partner: bool,
+        linked: bool,
+        #[serde(default)]
+        order: u8,
+        #[serde(default)]
+        from_partner: bool,
+    },
     /// Axle::<N>::new() then use every terminal
     AxleNew(u8),
     /// Axle::<n>::get_terminal(index): in range => a distinct slot inside the axle object; out of range => a panic
@@ -61,29 +71,37 @@ fn check_nary(product: bool, arity: u8, mask: u8, time_perm: u8) -> CheckResult 
     let k = present.len();
     Ok(CaseInfo::new(k >= 1 && k < n, hash_of(&(product, arity, mask))).class("n-ary scratch array"))
 }
-fn check_terminal(own: bool, partner: bool, linked: bool) -> CheckResult {
+fn check_terminal(own: bool, partner: bool, linked: bool, order: u8, from_partner: bool) -> CheckResult {
     let mut arena = Arena::new();
     let (a, b) = (arena.terminal(), arena.terminal());
     if linked {
         connect(a, b);
     }
     let (sa, sb) = (State::new_raw(3.0, 5.0, 7.0), State::new_raw(11.0, 13.0, 17.0));
+    let (ta, tb) = match order % 5 {
+        0 => (10, 20),
+        1 => (20, 10),
+        2 => (10, 10),
+        3 => (i64::MAX, i64::MIN),
+        _ => (i64::MIN, i64::MAX),
+    };
     if own {
-        set_state(a, Datum::new(Time(10), sa));
+        set_state(a, Datum::new(Time(ta), sa));
     }
     if partner {
-        set_state(b, Datum::new(Time(20), sb));
+        set_state(b, Datum::new(Time(tb), sb));
     }
-    let got = catch(|| read_state(a));
+    let (reader, mine, theirs) = if from_partner { (b, partner.then_some((tb, sb)), own.then_some((ta, sa))) } else { (a, own.then_some((ta, sa)), partner.then_some((tb, sb))) };
+    let theirs = if linked { theirs } else { None };
+    let got = catch(|| read_state(reader));
     ensure!(got.is_ok(), "C16/terminal/panic", "terminal state read panicked: {:?}", got);
-    let want = match (own, partner && linked) {
-        (false, false) => None,
-        (true, false) => Some(Datum::new(Time(10), sa)),
-        (false, true) => Some(Datum::new(Time(20), sb)),
-        (true, true) => Some(Datum::new(Time(20), State::new_raw(7.0, 9.0, 12.0))),
+    let want = match (mine, theirs) {
+        (None, None) => None,
+        (Some((t, s)), None) | (None, Some((t, s))) => Some(Datum::new(Time(t), s)),
+        (Some((t1, _)), Some((t2, _))) => Some(Datum::new(Time(t1.max(t2)), State::new_raw(7.0, 9.0, 12.0))),
     };
-    ensure!(got.clone().unwrap() == want, "C16/terminal/unwritten-slot", "terminal (own {}, partner {}, linked {}): state read {:?}, expected {:?}", own, partner, linked, got.unwrap(), want);
-    Ok(CaseInfo::new(own != (partner && linked), hash_of(&(own, partner, linked))).class("terminal scratch array"))
+    ensure!(got.clone().unwrap() == want, "C16/terminal/unwritten-slot", "terminal (own {}, partner {}, linked {}, timestamp order {}, read at the {} end): state read {:?}, expected {:?}", own, partner, linked, order, if from_partner { "partner's" } else { "own" }, got.unwrap(), want);
+    Ok(CaseInfo::new(mine.is_some() != theirs.is_some() || order > 0, hash_of(&(own, partner, linked, order, from_partner))).class("terminal scratch array"))
 }
 fn check_axle(n: u8) -> CheckResult {
     let mut arena = Arena::new();
@@ -328,23 +346,32 @@ static RESULTS: OnceLock<ProbeResults> = OnceLock::new();
 fn probes_root() -> PathBuf {
     verif_root().join("work").join("probes")
 }
-/// cargo-check a stub crate against the live /repo to obtain rrtk's metadata, then compile every
-/// probe and control with rustc individually (one crate each: exact attribution, no error masking).
-fn compile_all() -> ProbeResults {
+/// cargo-check a stub crate against the live /repo (default features + devices) and return (path of rrtk's .rmeta,
+/// its deps directory). Shared with C17's calling-crate probes.
+pub fn rrtk_rmeta() -> Result<(String, PathBuf), String> {
+    static CACHE: std::sync::Mutex<Option<Result<(String, PathBuf), String>>> = std::sync::Mutex::new(None);
+    let mut guard = CACHE.lock().unwrap_or_else(|e| e.into_inner());
+    if let Some(r) = guard.as_ref() {
+        return r.clone();
+    }
+    let r = rrtk_rmeta_uncached();
+    *guard = Some(r.clone());
+    r
+}
+fn rrtk_rmeta_uncached() -> Result<(String, PathBuf), String> {
     let root = probes_root();
     let base = root.join("base");
     let target = verif_root().join("work").join("target-probes");
-    let fail = |m: String| ProbeResults { results: HashMap::new(), error: Some(m) };
     let _ = std::fs::create_dir_all(base.join("src"));
     let _ = std::fs::write(base.join("Cargo.toml"), "[package]\nname = \"probe_base\"\nversion = \"0.1.0\"\nedition = \"2021\"\n[dependencies]\nrrtk = { path = \"REPO\", features = [\"devices\"] }\n[workspace]\n".replace("REPO", &repo_root()));
     let _ = std::fs::write(base.join("src/lib.rs"), "pub use rrtk;\n");
     let out = Proc::new("cargo").args(["check", "--offline", "--quiet", "--message-format=json", "--manifest-path"]).arg(base.join("Cargo.toml")).arg("--target-dir").arg(&target).env_remove("RUSTFLAGS").output();
     let out = match out {
         Ok(o) => o,
-        Err(e) => return fail(format!("cannot run cargo check: {}", e)),
+        Err(e) => return Err(format!("cannot run cargo check: {}", e)),
     };
     if !out.status.success() {
-        return fail(format!("cargo check of the probe base crate failed: {}", String::from_utf8_lossy(&out.stderr)));
+        return Err(format!("cargo check of the probe base crate failed: {}", String::from_utf8_lossy(&out.stderr)));
     }
     // find rrtk's rmeta among the artifacts
     let mut rmeta: Option<String> = None;
@@ -363,8 +390,18 @@ fn compile_all() -> ProbeResults {
             }
         }
     }
-    let Some(rmeta) = rmeta else { return fail("rrtk's .rmeta not found among cargo's artifacts".into()) };
+    let Some(rmeta) = rmeta else { return Err("rrtk's .rmeta not found among cargo's artifacts".into()) };
     let deps = Path::new(&rmeta).parent().unwrap().to_path_buf();
+    Ok((rmeta, deps))
+}
+/// compile every probe and control with rustc individually (one crate each: exact attribution, no error masking)
+fn compile_all() -> ProbeResults {
+    let root = probes_root();
+    let fail = |m: String| ProbeResults { results: HashMap::new(), error: Some(m) };
+    let (rmeta, deps) = match rrtk_rmeta() {
+        Ok(x) => x,
+        Err(m) => return fail(m),
+    };
     let src = root.join("src");
     let outdir = root.join("out");
     let _ = std::fs::remove_dir_all(&src);
@@ -512,7 +549,7 @@ pub fn list_probes() -> i32 {
 pub fn check(s: &Scenario) -> CheckResult {
     match s {
         Scenario::Nary { product, arity, mask, time_perm } => check_nary(*product, *arity, *mask, *time_perm),
-        Scenario::TerminalRead { own, partner, linked } => check_terminal(*own, *partner, *linked),
+        Scenario::TerminalRead { own, partner, linked, order, from_partner } => check_terminal(*own, *partner, *linked, *order, *from_partner),
         Scenario::AxleNew(n) => check_axle(*n),
         Scenario::AxleIndex { n, index } => check_axle_index(*n, *index),
         Scenario::Probe { id, control } => check_probe(id, *control),
@@ -523,7 +560,7 @@ pub fn check(s: &Scenario) -> CheckResult {
 pub struct C16;
 impl Property for C16 {
     const ID: &'static str = "C16";
-    const RULE: &'static str = "(a) exhaustive, with the cfg(rrtk_verif) hook that fills the four MaybeUninit scratch arrays with 0x7F bytes compiled in: n-ary sum and product of arity 1..8 x all 2^N present/absent patterns (inputs 2^i / the i-th prime, so the exact result identifies the contributing subset) x 3 timestamp permutations, terminal state read x own/partner/linked combinations, Axle::<N>::new() for N = 0..8 followed by use of every terminal, and Axle::<N>::get_terminal(i) for every in-range index and 12 indices past the end (in range: the i-th slot inside the object; past the end: a panic, never an address outside the axle); the same enumeration also runs as a plain program under `cargo +nightly miri run` without the hook (arity <= 5 quick, <= 8 thorough). (b) generated #![forbid(unsafe_code)] probe programs: 11 terminal accessors x {drop, move into Box, move to another binding, move into Vec, escape the scope, connect to a longer-lived terminal then drop} x {read through the reference, connect it}, plus probes that try to build a dangling Borrow / BorrowMut / Reference / ReferenceUnsafe or call the unsafe constructors outside unsafe; each probe is compiled by rustc as its own crate against the live rrtk; oracle = must be rejected; every probe's control twin (device kept alive) must compile. Non-trivial = a pattern with >= 1 absent and >= 1 present input / a probe whose control twin compiles; distinct = pattern or probe id.";
+    const RULE: &'static str = "(a) exhaustive, with the cfg(rrtk_verif) hook that fills the four MaybeUninit scratch arrays with 0x7F bytes compiled in: n-ary sum and product of arity 1..8 x all 2^N present/absent patterns (inputs 2^i / the i-th prime, so the exact result identifies the contributing subset) x 3 timestamp permutations, terminal state read x own/partner/linked combinations x 5 timestamp orders (partner newer, own newer, equal, the two extremes) x both ends, Axle::<N>::new() for N = 0..8 followed by use of every terminal, and Axle::<N>::get_terminal(i) for every in-range index and 12 indices past the end (in range: the i-th slot inside the object; past the end: a panic, never an address outside the axle); the same enumeration also runs as a plain program under `cargo +nightly miri run` without the hook (arity <= 5 quick, <= 8 thorough). (b) generated #![forbid(unsafe_code)] probe programs: 11 terminal accessors x {drop, move into Box, move to another binding, move into Vec, escape the scope, connect to a longer-lived terminal then drop} x {read through the reference, connect it}, plus probes that try to build a dangling Borrow / BorrowMut / Reference / ReferenceUnsafe or call the unsafe constructors outside unsafe; each probe is compiled by rustc as its own crate against the live rrtk; oracle = must be rejected; every probe's control twin (device kept alive) must compile. Non-trivial = a pattern with >= 1 absent and >= 1 present input / a probe whose control twin compiles; distinct = pattern or probe id.";
     type Scenario = Scenario;
     fn strategy(_tier: Tier) -> BoxedStrategy<Scenario> {
         Just(Scenario::AxleNew(0)).boxed()
@@ -547,8 +584,12 @@ impl Property for C16 {
         for own in [false, true] {
             for partner in [false, true] {
                 for linked in [false, true] {
-                    sink(Scenario::TerminalRead { own, partner, linked });
-                    n += 1;
+                    for order in 0..5u8 {
+                        for from_partner in [false, true] {
+                            sink(Scenario::TerminalRead { own, partner, linked, order, from_partner });
+                            n += 1;
+                        }
+                    }
                 }
             }
         }
@@ -567,7 +608,7 @@ impl Property for C16 {
             }
             sink(Scenario::Probe { id: p.id.clone(), control: false });
         }
-        vec![format!("all 2^N patterns for arity 1..8 of sum and product x 3 time permutations, 8 terminal combinations, Axle<0..8> construction and terminal indexing ({} cases)", n), format!("{} probe programs of the grammar (+ control twins), each compiled separately", ps.len())]
+        vec![format!("all 2^N patterns for arity 1..8 of sum and product x 3 time permutations, 80 terminal read combinations, Axle<0..8> construction and terminal indexing ({} cases)", n), format!("{} probe programs of the grammar (+ control twins), each compiled separately", ps.len())]
     }
     fn check(s: &Scenario) -> CheckResult {
         check(s)
